@@ -3,7 +3,7 @@ from checks import krill_common as kc
 
 PID = "C04"
 LEVEL = "model_checking"
-THEMES = "roll,multi,mix".split(",")
+THEMES = "roll,multi,mix,taroll".split(",")
 NEEDED = "RollInit,RollActivate,Settled".split(",")
 
 RULE = (
@@ -50,10 +50,11 @@ def run(tier, seed):
         PID, LEVEL, tier, seed, THEMES,
         quick_num=24, thorough_num=250,
         assumptions=kc.COMMON_ASSUMPTIONS, rule=RULE, needed_events=NEEDED,
-        mc_cfgs=(['MC_Krill_q_roll.cfg'] if tier == "quick" else ['MC_Krill_q_roll.cfg', 'MC_Krill_roll.cfg']),
+        mc_cfgs=(['MC_Krill_q_roll.cfg', 'MC_Krill_q_taroll.cfg'] if tier == "quick" else ['MC_Krill_q_roll.cfg', 'MC_Krill_q_taroll.cfg', 'MC_Krill_q_multi.cfg', 'MC_Krill_roll.cfg']),
         directed=(DIRECTED + kc.MULTI_DIRECTED[1:]
-                  + kc.clause("roll-interleaved", "roll-parent-and-child")),
-        theme_nums={"multi": (8, 80), "mix": (6, 60)})
+                  + kc.clause("roll-interleaved", "roll-parent-and-child")
+                  + kc.TA_DIRECTED),
+        theme_nums={"multi": (8, 80), "mix": (6, 60), "taroll": (8, 80)})
 
 
 def replay(path, seed):
